@@ -804,7 +804,12 @@ impl<'t> TreeConstruct<'t> for RecTree {
 
 pub struct RecActions {
     pub log: Log,
+    /// semantic actions seen so far; beyond ACTION_LIMIT the run is stopped with a user error (an LR table
+    /// with resolved conflicts can reduce a unit production `B: B` forever without growing its stack, which
+    /// no depth limit catches)
+    pub count: usize,
 }
+pub const ACTION_LIMIT: usize = 50_000;
 impl<'t> UserActionsTrait<'t> for RecActions {
     fn call_semantic_action_for_production_number(
         &mut self,
@@ -823,6 +828,10 @@ impl<'t> UserActionsTrait<'t> for RecActions {
         self.log
             .borrow_mut()
             .push(json!({"ev":"action","prod":prod_num,"n":children.len(),"ch":ch}));
+        self.count += 1;
+        if self.count > ACTION_LIMIT {
+            return Err(ParolError::UserError(anyhow::anyhow!("verif: action limit exceeded")));
+        }
         Ok(())
     }
     fn on_comment(&mut self, token: Token<'t>) {
@@ -888,7 +897,7 @@ pub fn err_json(e: &ParolError) -> Value {
 pub fn run(tables: &Tables, input: &str, opts: RunOpts) -> Vec<Value> {
     let log: Log = Rc::new(RefCell::new(Vec::new()));
     let mut tree = RecTree { log: log.clone() };
-    let mut acts = RecActions { log: log.clone() };
+    let mut acts = RecActions { log: log.clone(), count: 0 };
     let mf: &'static _ = Box::leak(Box::new(match_fn(tables.scanner.intervals)));
     let scanner_impl = Rc::new(RefCell::new(scnr2::ScannerImpl::new(tables.scanner.modes)));
     let k = opts.k.unwrap_or(tables.max_k);
